@@ -92,12 +92,14 @@ impl UnitSpec {
     }
     pub fn harmonise_ratings(&mut self) {
         match self {
+            // 5 % head-room: with an efficiency of exactly 1.0 the published limit would sit on
+            // the next component's rating and the code's exact `<=` then fails by one ulp
             UnitSpec::Conv { fc, gen, edrv, .. } => {
-                gen.pwr_max = gen.pwr_max.max(fc.pwr_max);
-                edrv.pwr_max = edrv.pwr_max.max(gen.pwr_max);
+                gen.pwr_max = gen.pwr_max.max((fc.pwr_max * 1.05 / 1000.0).ceil() * 1000.0);
+                edrv.pwr_max = edrv.pwr_max.max((gen.pwr_max * 1.05 / 1000.0).ceil() * 1000.0);
             }
             UnitSpec::Bel { res, edrv, .. } => {
-                edrv.pwr_max = edrv.pwr_max.max(res.pwr_max);
+                edrv.pwr_max = edrv.pwr_max.max((res.pwr_max * 1.05 / 1000.0).ceil() * 1000.0);
             }
         }
     }
